@@ -50,7 +50,7 @@ def tree_value_ids(config):
     ids = {}
 
     def rec(v):
-        if type(v).__name__ in ("Wrapped", "Wrapped2"):
+        if outcome.is_wrapped(v):
             ids[id(v)] = v
             rec(v.section)
         elif hasattr(v, "getSectionAttributes"):
